@@ -194,7 +194,10 @@ theorem langBest_single (W : Weights) (hW : W.Sane) (qv v : List Str) (hm : 0 < 
 
 theorem isLangKey_congr {k k' : Str} (h : cmpCI k k' = .eq) : isLangKey k = isLangKey k' := by
   have := cmpCI_eq_iff.1 h
-  simp [isLangKey, isLanguageTagN, strncaseEq, this]
+  have hlen : k.length = k'.length := by
+    have := congrArg List.length this
+    simpa [lowerStr] using this
+  simp [isLangKey, isLanguageTagN, strncaseEq, this, hlen]
 
 theorem isUR_congr {k k' : Str} (h : cmpCI k k' = .eq) :
     (cmpCI k kUnicodeRange == .eq) = (cmpCI k' kUnicodeRange == .eq) := by
